@@ -20,7 +20,7 @@ func init() {
 		MaxSeconds: map[string]int{"quick": 40, "thorough": 900},
 		Run:        runC04,
 		Assumptions: []string{
-			"requests in which the NUMBER of moves differs from the model's are left to C03/C06 (counted as skipped_upstream)",
+			"requests in which the NUMBER of moves differs from the model's are left to C03/C06 (counted as skipped_upstream); half of the runs use single-candidate routing, the other half unambiguous multi-line INCMP blocks (no duplicate selectors, wildcard last) so that lateral moves and ascents can follow each other",
 			"'^' issued while already on the entry node: the documentation does not say whether the page index is reset; not compared",
 			"a lateral move beyond the last page is reported by a failing render or lands on the catch node (the model does not know page counts)",
 		},
@@ -30,11 +30,11 @@ func init() {
 	})
 }
 
-func c04Profile(flagCount uint32) app.Profile {
+func c04Profile(flagCount uint32, single bool) app.Profile {
 	return app.Profile{
 		MaxNodes: 7, MaxExt: 3, FlagCount: flagCount,
 		Sinks: true, Menus: true, Browse: true, Catch: true,
-		ExtErrPct: 3, SingleRoute: true, RelTargets: true, UpAtRoot: true,
+		ExtErrPct: 3, SingleRoute: single, RelTargets: true, UpAtRoot: true,
 		MaxRows: 12, CatchShape: -1, RelWeight: 7,
 	}
 }
@@ -58,7 +58,7 @@ func runC04(c *core.Ctx) *core.Outcome {
 	if cfg.OutputSize > 0 && cfg.OutputSize < 40 {
 		cfg.OutputSize = 60 // multi-page nodes, not refused renders, are the point here
 	}
-	a := app.Generate(t, c04Profile(cfg.FlagCount))
+	a := app.Generate(t, c04Profile(cfg.FlagCount, t.Chance(1, 2)))
 	if err := a.Validate(); err != nil {
 		panic("generator produced ill-formed app: " + err.Error())
 	}
